@@ -139,15 +139,18 @@ def _case_variants(rng, s):
     return rng.choice([s, s.lower(), s.upper(), s.capitalize(), s.swapcase()])
 
 
+LIT_P = [0.10]   # share of module names drawn from the string literals of the sources (raised by the focused search)
+
+
 def gen_name(rng, lits, used, dotted_ok=True):
     for _ in range(50):
         r = rng.random()
-        if r < 0.55:
+        if lits and rng.random() < LIT_P[0]:
+            n = rng.choice(lits)
+        elif r < 0.55:
             n = rng.choice(BASE_NAMES)
         elif r < 0.70:
             n = rng.choice(KEYWORD_NAMES)
-        elif r < 0.80 and lits:
-            n = rng.choice(lits)
         elif r < 0.86 and dotted_ok:
             n = rng.choice(BASE_NAMES) + "." + rng.choice(["password", "x", "username", "Prod", "class-name"])
         else:
